@@ -253,6 +253,34 @@ def analyse(run: Run, progs: list[dict], results: list[dict], tier: str,
         f_mc = ex.submit(dc.model_check, insts)
         f_tr = ex.submit(dc.validate_traces, recs)
         mc, val = f_mc.result(), f_tr.result()
+    # TIME STEPPING (spec/DistExecEpochs.tla): two executions of the same partition object
+    # per rank, not synchronised between ranks, all schedules; and the deviation it was
+    # written to exclude (the executor works on the memoised counts themselves) must be
+    # reported on every instance in which some part has an input
+    ep_insts = [dict(i, dump=False) for i in insts if mc["clauses"].get(i["id"]) == {"ok"}]
+    ep_insts = [i for i in ep_insts if sum(len(rk["parts"]) for rk in i["ranks"]) <= 6]
+    if ep_insts:
+        ep = dc.model_check(ep_insts, cfg="DistExecEpochs.cfg", module="DistExecEpochs")
+        for iid, cl in ep["clauses"].items():
+            for c in sorted(cl - {"ok"}):
+                run.violation(f"{iid}:epochs:{c}",
+                              f"{iid}: TLC finds a schedule of TWO consecutive executions of "
+                              f"the real partition (DistExecEpochs) that ends in '{c}'",
+                              record={"prog": by_id[iid]}, sig=sig_of(by_id[iid], "epochs:" + c))
+        neg = dc.model_check(ep_insts[:40], cfg="DistExecEpochsAlias.cfg",
+                             module="DistExecEpochs")
+        with_inputs = [i["id"] for i in ep_insts[:40]
+                       if any(p["ins"] for rk in i["ranks"] for p in rk["parts"])]
+        missed = [iid for iid in with_inputs
+                  if "assert_refcount" not in neg["clauses"].get(iid, set())]
+        if with_inputs and missed:
+            raise MachineryError(
+                f"DistExecEpochs: the negative control (working on the memoised counts) is "
+                f"not reported on {len(missed)} of {len(with_inputs)} instances, e.g. "
+                f"{missed[0]}: {sorted(neg['clauses'].get(missed[0], set()))}")
+        run.coverage.update({"epochs_instances": len(ep_insts), "epochs_states": ep["nstates"],
+                             "epochs_transitions": ep["ntrans"],
+                             "epochs_negative_control_instances": len(with_inputs)})
     # liveness only where safety holds (a deadlocked instance trivially never finishes)
     safe = [i for i in insts if mc["clauses"].get(i["id"]) == {"ok"}]
     lv = dc.liveness(safe if do_live else [])
